@@ -12,9 +12,16 @@ import (
 // `range <map>` loop (with >= 2 keys) under explorer control: each loop
 // instance is a deviation-bounded choice among the orders of mc.PermCount.
 // On the stub build (original sources) the hook is inert.
-func WithMapDev(x *mc.Exec, f func()) {
+func WithMapDev(x *mc.Exec, f func()) { WithMapDevIn(x, nil, f) }
+
+// WithMapDevIn is WithMapDev restricted to the loops of the named functions
+// (nil = all); other loops run in sorted order.
+func WithMapDevIn(x *mc.Exec, funcs map[string]bool, f func()) {
 	loops := 0
 	j.McInstall(&j.McHooks{MapOrder: func(site, n int) []int {
+		if funcs != nil && (site >= len(j.McSites) || !funcs[j.McSites[site].Func]) {
+			return nil
+		}
 		loops++
 		idx := x.Dev(mc.PermCount(n), fmt.Sprintf("map@%d/%d", site, n))
 		if idx == 0 {
